@@ -58,6 +58,8 @@ pub fn load_ref_zone_with(name: &str, full_cycle: bool) -> Result<RefZone, Strin
     let last_year = if last_table == i64::MIN { 1970 } else { civil_from_days(last_table.div_euclid(86_400)).0 };
     let mut years: Vec<i64> = (last_year.min(2037)..=if full_cycle { 2437 } else { 2045 }).collect();
     years.extend([2099, 2100, 2101, 2399, 2400, 2401, 9997, 9998, 9999, 275_758, 275_759, 275_760]);
+    years.sort();
+    years.dedup();
     let has_rule = !file.footer.is_empty() && r7::parse_posix(&file.footer).map(|r| r.dst.is_some()).unwrap_or(false);
     let zone = r7::build_zone(&file, &years)?;
     Ok(RefZone { name: name.to_string(), file, zone, last_table, rule_years: years, has_rule })
